@@ -19,10 +19,10 @@ ASSUME_STORE = [
 
 REAL_VS_STUB = {
     'storesim': {'real': ['taskchain (from $TCSIM_REPO/src; for C12 also the frozen 1.4.0 copy)', 'orjson', 'yaml', 'numpy', 'pandas', 'networkx', 'logging', 'tmpfs file system', 'process death (os._exit of a forked interpreter)'],
-                 'stub': ['tqdm bars', 'datetime in taskchain.task (simulated clock)', 'run bodies of the generated tasks'], 'excluded': ['FigureData', 'H5Data dataset I/O', 'Chain.draw']},
+                 'stub': ['tqdm bars', 'datetime in taskchain.task (simulated clock)', 'run bodies of the generated tasks', 'builtins.open / io.open (pass-through; only the one file a short-write / close-error / interrupt-inside-write fault targets is wrapped)'], 'excluded': ['FigureData', 'H5Data dataset I/O', 'Chain.draw']},
     'cachesim': {'real': ['taskchain.cache', 'filelock', 'orjson', 'numpy', 'pandas', 'tmpfs file system'], 'stub': ['computers / cached method bodies (generated)'], 'excluded': []},
     'schedsim': {'real': ['taskchain.cache', 'filelock (flock)', 'orjson', 'numpy', 'pandas', 'threads', 'tmpfs file system'],
-                 'stub': ['time.sleep (lock poll -> yield)', 'open() for files written under the cache directory (chunking proxy over the real file)', 'thread scheduling (baton)'], 'excluded': []},
+                 'stub': ['time.sleep (lock poll -> yield, advances the simulated clock)', 'time.perf_counter / time.monotonic (simulated clock for lock deadlines, client threads only)', 'open() for files written under the cache directory (chunking proxy over the real file)', 'thread scheduling (baton)'], 'excluded': []},
     'pmapsim': {'real': ['taskchain.utils.threading / utils.iter', 'concurrent.futures.ThreadPoolExecutor', 'asyncio event loop'],
                 'stub': ['tqdm', 'f (gate-controlled)', 'loop.call_soon_threadsafe counted (pass-through)'], 'excluded': []},
 }
